@@ -98,6 +98,28 @@ def main(tier):
                     tdis.append({"p": texts[i], "q": texts[j], "numeric_constants": expect[i * n + j], "string_twins": r})
     chk.add_corr("imp/string-twins", tn, tdis, note="same pairs over order-isomorphic str constants")
     chk.evaluations += tn
+    # the same over constants of other types: aware datetimes whose wall-clock order differs from their order in time, ints beyond
+    # 2**53, tuples, Fraction, Decimal (one kind per pair, in rotation)
+    kinds = [k for k in lift.TWIN_KINDS if k != "str"]
+    kobjs = {}
+    for kind in kinds:
+        with lift.twin(kind):
+            kobjs[kind] = {k: lift.lower(preds[k]) for k in tw}
+    odis, on = [], 0
+    for i in tw:
+        for j in tw:
+            kind = kinds[(i * 31 + j) % len(kinds)]
+            try:
+                r = "T" if implies(kobjs[kind][i], kobjs[kind][j]) else "F"
+            except Exception as e:  # noqa: BLE001
+                r = f"RAISED {type(e).__name__}"
+            on += 1
+            if r != expect[i * n + j]:
+                odis.append({"p": texts[i], "q": texts[j], "numeric_constants": expect[i * n + j], "twin_kind": kind, "twin_constants": r})
+    chk.add_corr("imp/typed-twins", on, odis, note="same pairs over order-isomorphic constants of another type")
+    chk.evaluations += on
+    for d in odis[:5]:
+        chk.add_failure(f"implies({d['p']}, {d['q']})  [constants lowered as order-isomorphic {d['twin_kind']} values]", {"what": "implies depends on the type of the constants, not on their order and equality", **d}, None)
     for d in tdis[:5]:
         chk.add_failure(f"implies({d['p']}, {d['q']})  [constants lowered as the strings that print the same]", {"what": "implies depends on how constants print, not on their values", **d}, None)
     # the property on the real code
